@@ -12,7 +12,7 @@ git -C /repo worktree add -q --detach "$WT" HEAD || { echo "$ID: worktree failed
 cp /repo/Cargo.lock "$WT/Cargo.lock"
 cd "$WT"
 APPLY=ok
-git apply "$DIR/patch.diff" 2>/dev/null || git apply -3 "$DIR/patch.diff" 2>/dev/null || patch -p1 -s < "$DIR/patch.diff" >/dev/null 2>&1 || APPLY=fail
+git apply "$DIR/patch.diff" 2>/dev/null || APPLY=fail
 if [ "$APPLY" = fail ]; then echo "$ID: apply=FAIL"; cd /; git -C /repo worktree remove --force "$WT"; exit 1; fi
 SUITE=$(cargo test --workspace --no-fail-fast --offline 2>&1 | grep -E "^test result" | awk '{p+=$4; f+=$6} END {print p" passed "f" failed"}')
 mkdir -p autosar-data/tests; cp "$DIR/demo.rs" autosar-data/tests/seed_demo.rs
